@@ -12,7 +12,8 @@
      b_complete_struct_or_union_lock_held (src/c/_cffi_backend.c) with the arguments
      model.StructOrUnion.finish_backend_type (src/cffi/model.py) passes to it, transcribed
      statement by statement, including the MSVC / ARM / big-endian branches that the constant
-     Variant can switch on (they are what the deliberately broken variants use).
+     Variant can switch on (they are what the deliberately broken variants use).  Line numbers
+     in the comments refer to the pinned snapshot (commit 58a6019).
 
    Terms
      type  ::= [c |-> "prim", name |-> <name in Platform.Prim>]
